@@ -10,7 +10,7 @@ EXTENDS Integers, Sequences, FiniteSets, TLC, Json
 VARIABLES l, execs, cur
 vars == <<l, execs, cur>>
 Trace == ndJsonDeserialize("trace.ndjson")
-Ids == 1..20
+Ids == 1..30
 Init == l = 1 /\ execs = [c \in Ids |-> 0] /\ cur = [kind |-> "none"] /\ TLCSet(1, 0)
 Next == /\ l <= Len(Trace) /\ l' = l + 1
         /\ LET r == Trace[l] IN
@@ -21,7 +21,7 @@ Next == /\ l <= Len(Trace) /\ l' = l + 1
 Spec == Init /\ [][Next]_vars
 TraceAccepted == TLCGet(1) = Len(Trace)
 AtMostOnce == (cur.kind = "offer" /\ cur.content \in Ids) => execs[cur.content] <= 1   \* about the content just offered
-Foreign == cur.kind = "offer" /\ cur.variant \in {"other-chain", "other-network", "created-beyond-window"}
+Foreign == cur.kind = "offer" /\ cur.variant \in {"other-chain", "other-network", "created-beyond-window", "chain-id-rewritten", "network-id-rewritten"}
 ForeignNeverExecutes == Foreign => ~cur.executed
 LegitExecutes == (cur.kind = "offer" /\ cur.legit) => cur.executed
 NoError == cur.kind = "offer" => cur.err = ""
